@@ -248,10 +248,50 @@ def check_incidence(case, ctx):
                 key="return_mapping")
         same(name + "(return_mapping=False) vs the matrix returned with the mapping",
              dense(M, name), dense(M2, name), names_of(row), [tuple(sorted(e)) for e in edges])
+    # the same object again after it changed (a cached matrix or mapping must not survive)
+    nodes2, edges2 = _mutate_after_query(h, ab, ctx)
+    if nodes2:
+        edges_l = [frozenset(e) for e in h.get_edges()]
+        require(Counter(edges_l) == Counter(edges2.keys()),
+                lambda: "get_edges() after the mutation lists %r, expected %r"
+                % (edges_l, list(edges2)), key="edges-after-mutation")
+        for name, call, weighted in calls:
+            M, mapping = call(True)
+            what = name + " [asked again after remove_node/add_node and remove_edge]"
+            row = read_mapping(mapping, what, nodes2, nodes2, exact=True)
+            exp = incidence_expected(row, edges_l,
+                                     (lambda e: edges2[e]) if weighted else (lambda e: 1))
+            same(what, exp, dense(M, name), names_of(row), [tuple(sorted(e, key=repr)) for e in edges_l])
 
 
 # --------------------------------------------------------------------------
 # C09.adjacency
+
+
+def _mutate_after_query(h, ab, ctx):
+    """Change the object after matrices were asked for once (a stale cache must not survive):
+    remove an isolated node if there is one, else add one; then remove one hyperedge.
+    Returns (node set, {node set -> weight}) of the new content."""
+    from ..common import fresh_label
+    nodes = set(ab.labels)
+    edges = dict(ab.edges)
+    iso = sorted(nodes - ab.covered(), key=repr)
+    if iso:
+        h.remove_node(iso[0])
+        nodes.discard(iso[0])
+        ctx.label("requery:isolated_node_removed")
+    else:
+        z = fresh_label(nodes)
+        if z is not None:
+            h.add_node(z)
+            nodes.add(z)
+            ctx.label("requery:node_added")
+    if edges:
+        e = sorted(edges, key=lambda x: (len(x), sorted(x, key=repr)))[0]
+        h.remove_edge(tuple(sorted(e, key=repr)))
+        del edges[e]
+        ctx.label("requery:hyperedge_removed")
+    return nodes, edges
 
 
 def check_adjacency(case, ctx):
@@ -259,19 +299,26 @@ def check_adjacency(case, ctx):
     ab = Abstract(case)
     classify(case, ab, ctx)
     h = build(case)
-    nodes = set(ab.labels)
-    for name, call in (
-        ("linalg.adjacency_matrix", lambda rm: LA.adjacency_matrix(h, return_mapping=rm)),
-        ("Hypergraph.adjacency_matrix", lambda rm: h.adjacency_matrix(return_mapping=rm)),
-    ):
-        A, mapping = call(True)
-        row = read_mapping(mapping, name, nodes, nodes, exact=True)
-        exp = adjacency_expected(row, ab.edges)
-        same(name + " (number of common hyperedges, zero diagonal)", exp, dense(A, name),
-             names_of(row))
-        A2 = call(False)
-        same(name + "(return_mapping=False) vs the matrix returned with the mapping",
-             dense(A, name), dense(A2, name), names_of(row))
+
+    def verify(nodes, edges, phase):
+        for name, call in (
+            ("linalg.adjacency_matrix", lambda rm: LA.adjacency_matrix(h, return_mapping=rm)),
+            ("Hypergraph.adjacency_matrix", lambda rm: h.adjacency_matrix(return_mapping=rm)),
+        ):
+            A, mapping = call(True)
+            row = read_mapping(mapping, name + phase, nodes, nodes, exact=True)
+            exp = adjacency_expected(row, edges)
+            same(name + phase + " (number of common hyperedges, zero diagonal)", exp,
+                 dense(A, name), names_of(row))
+            A2 = call(False)
+            same(name + phase + "(return_mapping=False) vs the matrix returned with the mapping",
+                 dense(A, name), dense(A2, name), names_of(row))
+
+    verify(set(ab.labels), ab.edges, "")
+    # the same object again after it changed: the matrices must follow the content
+    nodes2, edges2 = _mutate_after_query(h, ab, ctx)
+    if nodes2:
+        verify(nodes2, edges2, " [asked again after remove_node/add_node and remove_edge]")
 
 
 # --------------------------------------------------------------------------
